@@ -171,6 +171,9 @@ func findEndTime(moov *mp4.MoovBox, durationMS int) (endTime, endTimescale uint6
 		if !foundSyncFrame {
 			return 0, 0, fmt.Errorf("did not find any syncframe at or after time")
 		}
+	} else {
+		// All samples are sync samples: end just before the first one at or after the time
+		lastSampleNr--
 	}
 	lastTime, lastDur := stts.GetDecodeTime(lastSampleNr)
 	endTime = lastTime + uint64(lastDur)
